@@ -5,9 +5,12 @@ import subprocess, sys, re, os, fcntl
 _lock = open("/tmp/sgv-repo.lock", "w")
 fcntl.flock(_lock, fcntl.LOCK_EX)          # held while the change is applied; checks are told not to re-lock
 os.environ["SGV_LOCK_HELD"] = "1"
+os.environ["SGV_NO_EVIDENCE"] = "1"        # evidence files describe the unchanged tree only
 patch = os.path.abspath(sys.argv[1])
 ids = [a for a in sys.argv[2:] if not a.startswith("--")]
 files = re.findall(r"^\+\+\+ b/(\S+)", open(patch).read(), re.M)
+if not files:
+    print("REFUSING: no `+++ b/<file>` header found in the patch (write it with `git diff`, not `git show -R`)"); sys.exit(2)
 dirty = subprocess.run(["git", "-C", "/repo", "status", "--porcelain", "--"] + files, capture_output=True, text=True).stdout.strip()
 if dirty:
     print("REFUSING: files touched by the patch have uncommitted changes:\n" + dirty); sys.exit(2)
